@@ -1,4 +1,5 @@
-"""C20 - gene models keep exons, introns and coding regions as exact partitions; rejected updates are atomic.
+"""C20 - gene models keep exons, introns and coding regions as exact partitions; rejected updates are atomic
+(on a transcript: SetExons / Add; on a gene: SetFeatures, where Start/End/Len must stay with the retained features).
 
 (A) Gene.tla explored by TLC: every SetExons argument list of the bounded domain is accepted iff it is
     acceptable (same transcript, pairwise disjoint, one exon at zero) and what is then held is sorted, disjoint
@@ -7,15 +8,23 @@
     orientation chains; PositionWithin/BasePositionOf compose additively and OrientationWithin/BaseOrientationOf
     multiplicatively along every chain; OneToZero/ZeroToOne are mutually inverse where defined; in the update
     machine (SetExons / Exons().Add on a transcript, s = s.Add on a bare Exons value with spare capacity, histories
-    of any length) a rejected call leaves the exon sequence and the returned slice exactly as they were.
+    of any length) a rejected call leaves the exon sequence and the returned slice exactly as they were; in the
+    gene machine (SetFeatures with every list of <= MaxFeats features in [0, LG), in every order, located on the gene
+    or elsewhere) a call is accepted iff all features are on the gene and one starts at 0, a rejected call leaves
+    Features() and the length as they were, and after any history the gene reaches exactly to the largest end of
+    the features it retains.
     Negative controls that TLC must refute: "asfound" (Add sorts the appended slice in place, gene.go:362-363),
-    "overlap_le" (abutting exons rejected), "utr_swap" (UTRs from the same end on both strands).
+    "overlap_le" (abutting exons rejected), "utr_swap" (UTRs from the same end on both strands), "glen_early"
+    (SetFeatures accumulates the largest end in the gene's length before its validation has finished).
 (B) TLC emits the cases of a bounded model (argument lists, cuts, CDS bounds x chains, chains x positions, every
-    (held, spare capacity, call) edge of the update machine); harness/gened runs them on gene.NonCodingTranscript,
-    gene.CodingTranscript and bare gene.Exons values built with the stated spare capacity.
+    (held, spare capacity, call) edge of the update machine, every (features held, SetFeatures call) edge of the gene
+    machine); harness/gened runs them on gene.NonCodingTranscript, gene.CodingTranscript, bare gene.Exons values
+    built with the stated spare capacity, and gene.Gene values holding real transcripts.
 (C) harness/gened enumerates histories on a tiny universe (capacities as the runtime leaves them), transcripts of
-    1..48 exons (spare capacity behind SetExons), chains of 998..1003 features around the documented limit, and
-    seeded random gene models on transcripts of length <= 10^4.
+    1..48 exons (spare capacity behind SetExons), histories of accepted / rejected SetFeatures calls on genes (valid
+    sets of 1-3 transcripts of different lengths, foreign feature first / last, no zero start, no feature), chains of
+    998..1003 features around the documented limit, and seeded random gene models on transcripts of length <= 10^4
+    plus random SetFeatures histories (features up to 10^4 long, foreign / negative / shifted starts).
 Every logged call is judged by GeneTrace.tla with the operators of Gene.tla.  A binding self-test corrupts one
 logged field per event type and requires the trace specification to reject exactly those events.
 """
@@ -27,6 +36,7 @@ NEG_EXPECT = {
     "asfound": ("RejectedAtomic", "HeldContract", "AcceptedResult"),
     "overlap_le": ("AcceptedIffAcceptable", "CutsAccepted", "AcceptedTiles"),
     "utr_swap": ("UTRsTile",),
+    "glen_early": ("GeneRejectedAtomic", "GeneBoundsAgree"),
 }
 
 
@@ -64,6 +74,9 @@ def replay_case(e):
     if op == "set":
         calls = ([{"call": "set", "xs": e["before"]}] if e["before"] else []) + [{"call": "set", "xs": e["xs"]}]
         return {"op": "hist", "holder": e["holder"], "calls": calls}
+    if op == "gset":
+        calls = ([{"call": "setfeatures", "xs": e["before"]}] if e["before"] else []) + [{"call": "setfeatures", "xs": e["xs"]}]
+        return {"op": "ghist", "offset": e["offset"], "calls": calls}
     if op == "view":
         return {"op": "hist", "holder": e["kind"], "chain": e.get("chain", []), "cs": e["cs"], "ce": e["ce"],
                 "calls": [{"call": "set", "xs": e.get("exons", [])}]}
@@ -107,6 +120,25 @@ def _mutants(events):
     if e:
         e["after"] = e["xs"]
         out.append(("rejected SetExons: arguments stored", e))
+    e = first(lambda e: e["op"] == "gset" and e["err"] != "" and e["before"] and e["glen"] == e["lenbefore"] > 0)
+    if e:
+        e["glen"] -= 1
+        e["gend"] -= 1
+        out.append(("rejected SetFeatures: the gene got shorter", e))
+    e = first(lambda e: e["op"] == "gset" and e["err"] != "" and e["before"] and e["xs"] and e["xs"] != e["before"])
+    if e:
+        e["after"], e["afterids"] = e["xs"], e["xsids"]
+        out.append(("rejected SetFeatures: arguments stored", e))
+    e = first(lambda e: e["op"] == "gset" and e["err"] == "" and len(e["xs"]) >= 2 and e["glen"] > 0)
+    if e:
+        e["glen"] += 1
+        e["gend"] += 1
+        out.append(("accepted SetFeatures: gene longer than its features", e))
+    e = first(lambda e: e["op"] == "gset" and e["err"] != "" and e["panic"] == "" and any(x[2] != 0 for x in e["xs"]))
+    if e:
+        e["err"] = ""
+        e["after"], e["afterids"] = e["xs"], e["xsids"]
+        out.append(("SetFeatures with a foreign feature reported as accepted", e))
     e = first(lambda e: e["op"] == "view" and len(e["introns"]) >= 1 and e["introns"][0][1] > e["introns"][0][0])
     if e:
         e["introns"][0][0] += 1
@@ -147,6 +179,8 @@ def _nontrivial(e):
         return bool(e["before"]) and bool(e["xs"])
     if op == "set":
         return len(e["xs"]) >= 2
+    if op == "gset":
+        return bool(e["before"])
     if op == "view":
         return len(e.get("exons", [])) >= 2
     if op == "map":
@@ -159,8 +193,8 @@ def _judge(ck, work, sources, label):
     lines, raw = _uniq_lines([p for _, p in sources])
     events = [json.loads(l) for l in lines]
     muts = _mutants(events)
-    if len(muts) < 10:
-        raise vlib.Infra("binding self-test could build only %d of 12 corrupted events" % len(muts))
+    if len(muts) < 14:
+        raise vlib.Infra("binding self-test could build only %d of 16 corrupted events" % len(muts))
     mlines = [json.dumps(m, separators=(",", ":")) + "\n" for _, m in muts]
     alll = mlines + lines
     nchunks = max(1, min(4, len(alll) // 4000))
@@ -246,9 +280,9 @@ def _judge(ck, work, sources, label):
 
 def run(ck, tier):
     thorough = tier == "thorough"
-    ck.rule = ("a case is one logged call (Exons.Add, SetExons), one view of a transcript (exons, introns, UTR5/CDS/UTR3), "
+    ck.rule = ("a case is one logged call (Exons.Add, SetExons, Gene.SetFeatures), one view of a transcript (exons, introns, UTR5/CDS/UTR3), "
                "one evaluation of the four mapping functions on a nesting chain, or one conversion pair; non-trivial = Add on "
-               "a non-empty slice, SetExons/view with >= 2 exons, chains of >= 2 features, conversions of p # 0; distinct by content")
+               "a non-empty slice, SetExons/view with >= 2 exons, SetFeatures on a gene that holds features, chains of >= 2 features, conversions of p # 0; distinct by content")
     ck.assumptions = [
         "exons have length >= 1 (sort.Sort is not stable: with zero-length exons sharing a start the outcome of Add is not a function of its input)",
         "positions stay below 2^31 (TLC integers); orientations are -1, 0, 1",
@@ -260,16 +294,16 @@ def run(ck, tier):
     # (A) model checking
     mc = {}
     if thorough:
-        mc = {"L": 9, "MaxArgs": 3, "Starts": "{0, 3, 7}", "MaxDepth": 4, "LH": 5, "MaxArgsH": 2, "MaxSpare": 3}
+        mc = {"L": 9, "MaxArgs": 3, "Starts": "{0, 3, 7}", "MaxDepth": 4, "LH": 5, "MaxArgsH": 2, "MaxSpare": 3, "LG": 3}
     r = vlib.tlc(SPEC, "Gene", None, cfg_text=vlib.subst_cfg(SPEC, "GeneMC.cfg", mc), workers=16, timeout=3400)
     vlib.tlc_expect_ok(r, "GeneMC")
-    ck.mc("GeneMC", r, "laws over all cases + update machine (histories of any length)")
+    ck.mc("GeneMC", r, "laws over all cases + update machines of transcript and gene (histories of any length)")
     ck.exhaustive = True
     r = vlib.tlc(SPEC, "Gene", "GeneNeg.cfg", workers=4, timeout=900)
     if r.violated not in NEG_EXPECT["asfound"]:
         raise vlib.Infra("negative control asfound (Add sorts in place) not refuted (%s)\n%s" % (r.violated, r.out[-1500:]))
     ck.mc("GeneNeg(asfound)", r, "in-place sort refuted: %s" % r.violated)
-    for variant, kinds in (("overlap_le", '{"args", "cut"}'), ("utr_swap", '{"utr"}')):
+    for variant, kinds in (("overlap_le", '{"args", "cut"}'), ("utr_swap", '{"utr"}'), ("glen_early", '{"gene"}')):
         cfg = vlib.subst_cfg(SPEC, "GeneNeg.cfg", {"Variant": '"%s"' % variant, "Kinds": kinds, "L": 5, "MaxDepth": 2})
         r = vlib.tlc(SPEC, "Gene", None, cfg_text=cfg, workers=4, timeout=900)
         if r.violated not in NEG_EXPECT[variant]:
@@ -279,9 +313,9 @@ def run(ck, tier):
     work = vlib.scratch("c20-")
     try:
         # (B) cases of the bounded model, emitted by TLC
-        ga = {"MaxArgs": 3, "MaxSpare": 2, "MaxDepth": 4} if thorough else {"MaxArgs": 2, "MaxSpare": 1}
+        ga = {"MaxArgs": 3, "MaxSpare": 2, "MaxDepth": 4, "LG": 3} if thorough else {"MaxArgs": 2, "MaxSpare": 1}
         c1, r = _gen(work, "cases1.ndjson", ga, ck.seed)
-        ck.mc("GeneGen(cases)", r, "argument lists, CDS bounds x chains, chains x positions, update-machine edges")
+        ck.mc("GeneGen(cases)", r, "argument lists, CDS bounds x chains, chains x positions, update-machine edges (transcript, gene)")
         c2, r = _gen(work, "cases2.ndjson", {"Kinds": '{"cut"}', "L": 8 if thorough else 7}, ck.seed)
         ck.mc("GeneGen(cuts)", r, "every cut of a transcript of length <= %d" % (8 if thorough else 7))
         clines, _ = _uniq_lines([c1, c2])
@@ -310,7 +344,11 @@ def run(ck, tier):
         spare_tr = [e for e in events if e["op"] == "add" and e["holder"] != "bare" and e["spare"] > 0]
         ck.extra["transcript_adds_with_runtime_spare_capacity"] = len(spare_tr)
         ck.extra["max_exons_in_a_call"] = max([len(e.get("before", [])) + len(e.get("xs", [])) for e in events] or [0])
-        for op in ("add", "set", "view", "map", "conv"):
+        rej = [e for e in events if e["op"] == "gset" and e["err"] != "" and e["before"]]
+        ck.extra["rejected_setfeatures_on_genes_holding_features"] = len(rej)
+        ck.extra["of_which_arguments_reach_elsewhere_than_the_gene_did"] = sum(
+            1 for e in rej if max([x[0] + x[1] for x in e["xs"]] or [0]) != e["lenbefore"])
+        for op in ("add", "set", "gset", "view", "map", "conv"):
             for e in events:
                 if e["op"] == op and _nontrivial(e) and len(json.dumps(e)) < 700:
                     ck.samples.append({"source": "harness/gened", "event": e})
